@@ -1,59 +1,153 @@
 #!/usr/bin/env python3
-"""Run the registered quick checks against the seeded changes, one at a time:
-   git -C /repo apply <patch>; ./check <property>; git -C /repo checkout -- .
-Evidence and replays of these runs go to target/seeded-runs/<id>/ so that the committed evidence
-is untouched.  Results are recorded in seeded/<id>/meta.json under "detection".
-usage: run_seeded.py [ids...] [--also C07,C01]"""
+"""Run the registered checks against the seeded changes, one at a time:
+   git -C <repo> apply <patch>; ./check <property>; git -C <repo> checkout -- .
+
+usage: run_seeded.py [ids...] [--also C07,C01] [--tier quick|thorough] [--scratch DIR] [--results FILE]
+       run_seeded.py --merge FILE...     merge result lines into seeded/<id>/meta.json ("detection")
+       run_seeded.py --table             print the detection matrix (markdown) from seeded/*/meta.json
+
+Without --scratch the change is applied to /repo itself (the procedure of record).  With
+--scratch DIR a git worktree of /repo's HEAD is created at DIR and the harness of *this* copy of
+/verif (meant for a `vp run` snapshot, never /verif itself) is pointed at it, so that /repo and
+/verif stay usable while the matrix runs.  Evidence and replays of these runs go to
+target/seeded-runs/<id>/ so that the committed evidence is untouched.  One JSON line per
+(change, check) is appended to --results (default target/seeded-runs/results.jsonl)."""
 import json, os, re, subprocess, sys, time
 
-ROOT = '/verif'
+ROOT = os.path.dirname(os.path.dirname(os.path.abspath(__file__)))
+SEEDED = os.path.join(ROOT, 'seeded')
+
 
 def sh(cmd, **kw):
     return subprocess.run(cmd, shell=True, stdout=subprocess.PIPE, stderr=subprocess.STDOUT, **kw)
 
-def clean_repo():
-    sh('git -C /repo checkout -- . && git -C /repo clean -fdq -e target')
-    out = sh('git -C /repo status --porcelain').stdout.decode().strip()
-    return out == ''
+
+def clean_repo(repo):
+    sh(f'git -C {repo} checkout -- . && git -C {repo} clean -fdq -e target')
+    return sh(f'git -C {repo} status --porcelain').stdout.decode().strip() == ''
+
+
+def ids_all():
+    return sorted(d for d in os.listdir(SEEDED) if os.path.isdir(os.path.join(SEEDED, d)))
+
+
+def merge(files):
+    n = 0
+    for f in files:
+        for line in open(f):
+            line = line.strip()
+            if not line:
+                continue
+            r = json.loads(line)
+            mp = os.path.join(SEEDED, r['id'], 'meta.json')
+            if not os.path.exists(mp):
+                continue
+            meta = json.load(open(mp))
+            det = meta.get('detection') or {}
+            key = r['check'] if r.get('tier', 'quick') == 'quick' else f"{r['check']}:{r['tier']}"
+            det[key] = {k: r[k] for k in ('exit', 'violations', 'keys', 'inconclusive', 'wall_s', 'base', 'verif', 'where') if k in r}
+            meta['detection'] = det
+            json.dump(meta, open(mp, 'w'), indent=1)
+            n += 1
+    print('merged', n, 'result lines')
+
+
+def table():
+    print('| change | breaks | what it needs | caught by (quick unless noted) | first violation key |')
+    print('|---|---|---|---|---|')
+    for sid in ids_all():
+        meta = json.load(open(os.path.join(SEEDED, sid, 'meta.json')))
+        det = meta.get('detection') or {}
+        caught = [k for k, v in det.items() if v.get('exit') == 1]
+        missed = [k for k, v in det.items() if v.get('exit') == 0]
+        inconc = [k for k, v in det.items() if v.get('exit') not in (0, 1)]
+        own = meta['property']
+        key = ''
+        for k in caught:
+            if det[k].get('keys'):
+                key = det[k]['keys'][0]
+                break
+        cell = ', '.join(caught) if caught else '**missed**'
+        if missed and caught:
+            cell += ' (silent: ' + ', '.join(missed) + ')'
+        if inconc:
+            cell += ' (inconclusive: ' + ', '.join(inconc) + ')'
+        needs = (meta.get('needs') or '').replace('|', '/').replace('\n', ' ')
+        print(f"| {sid} | {own} | {needs[:150]} | {cell} | `{key[:90]}` |")
+
 
 def main():
     args = sys.argv[1:]
-    also = []
-    if '--also' in args:
-        i = args.index('--also'); also = args[i + 1].split(','); del args[i:i + 2]
-    ids = args or sorted(d for d in os.listdir(f'{ROOT}/seeded') if os.path.isdir(f'{ROOT}/seeded/{d}'))
-    assert clean_repo(), '/repo is not clean'
-    for sid in ids:
-        prop = sid.split('-')[0]
-        mp = f'{ROOT}/seeded/{sid}/meta.json'
-        meta = json.load(open(mp))
-        r = sh(f'git -C /repo apply {ROOT}/seeded/{sid}/patch.diff')
-        if r.returncode != 0:
-            print(sid, 'PATCH DOES NOT APPLY', r.stdout.decode()[-200:], flush=True)
-            clean_repo()
-            continue
-        det = meta.get('detection', {})
-        try:
-            for p in [prop] + also:
-                out_dir = f'{ROOT}/target/seeded-runs/{sid}'
-                os.makedirs(out_dir, exist_ok=True)
-                env = dict(os.environ, VERIF_EVIDENCE_DIR=out_dir, VERIF_REPLAY_DIR=out_dir)
-                t0 = time.time()
-                c = sh(f'./check {p} --tier quick', cwd=ROOT, env=env)
-                text = c.stdout.decode('utf-8', 'replace')
-                keys = re.findall(r'^\s+key: (.*)$', text, re.M)
-                det[p] = {'exit': c.returncode, 'violations': len(re.findall(r'^VIOLATION ', text, re.M)), 'keys': keys[:12],
-                          'inconclusive': re.findall(r'^INCONCLUSIVE: (.*)$', text, re.M)[:3], 'wall_s': round(time.time() - t0, 1),
-                          'base': subprocess.run(['git', '-C', '/repo', 'rev-parse', '--short', 'HEAD'], stdout=subprocess.PIPE).stdout.decode().strip()}
-                verdict = {0: 'MISSED', 1: 'DETECTED', 2: 'INCONCLUSIVE'}.get(c.returncode, f'exit {c.returncode}')
-                print(sid, p, verdict, det[p]['wall_s'], 's', keys[:3], det[p]['inconclusive'][:1], flush=True)
-        finally:
-            ok = clean_repo()
-            meta['detection'] = det
-            json.dump(meta, open(mp, 'w'), indent=1)
-            if not ok:
-                print('REPO NOT CLEAN after', sid, flush=True)
-                break
+    if args and args[0] == '--merge':
+        return merge(args[1:])
+    if args and args[0] == '--table':
+        return table()
+    also, tier, scratch = [], 'quick', None
+    results = os.path.join(ROOT, 'target', 'seeded-runs', 'results.jsonl')
+    for opt in ('--also', '--tier', '--scratch', '--results'):
+        if opt in args:
+            i = args.index(opt)
+            val = args[i + 1]
+            del args[i:i + 2]
+            if opt == '--also':
+                also = val.split(',')
+            elif opt == '--tier':
+                tier = val
+            elif opt == '--scratch':
+                scratch = val
+            else:
+                results = val
+    ids = args or ids_all()
+    os.makedirs(os.path.dirname(results), exist_ok=True)
+    repo = '/repo'
+    env_extra = {}
+    if scratch:
+        assert ROOT != '/verif', '--scratch rewrites the harness manifest: use it from a snapshot of /verif only'
+        sh(f'git -C /repo worktree remove --force {scratch}')
+        sh(f'rm -rf {scratch}; git -C /repo worktree prune')
+        r = sh(f'git -C /repo worktree add -q --detach {scratch} HEAD')
+        assert r.returncode == 0, r.stdout.decode()
+        repo = scratch
+        man = os.path.join(ROOT, 'harness', 'hbsmon', 'Cargo.toml')
+        text = open(man).read().replace('path = "/repo"', f'path = "{scratch}"')
+        open(man, 'w').write(text)
+        env_extra['VERIF_REPO'] = scratch
+    assert clean_repo(repo), f'{repo} is not clean'
+    base = subprocess.run(['git', '-C', repo, 'rev-parse', '--short', 'HEAD'], stdout=subprocess.PIPE).stdout.decode().strip()
+    verif = subprocess.run(['git', '-C', ROOT, 'rev-parse', '--short', 'HEAD'], stdout=subprocess.PIPE).stdout.decode().strip()
+    try:
+        for sid in ids:
+            prop = sid.split('-')[0]
+            r = sh(f'git -C {repo} apply {SEEDED}/{sid}/patch.diff')
+            if r.returncode != 0:
+                print(sid, 'PATCH DOES NOT APPLY', r.stdout.decode()[-200:], flush=True)
+                clean_repo(repo)
+                continue
+            try:
+                for p in [prop] + [a for a in also if a != prop]:
+                    out_dir = os.path.join(ROOT, 'target', 'seeded-runs', sid)
+                    os.makedirs(out_dir, exist_ok=True)
+                    env = dict(os.environ, VERIF_EVIDENCE_DIR=out_dir, VERIF_REPLAY_DIR=out_dir, **env_extra)
+                    t0 = time.time()
+                    c = sh(f'./check {p} --tier {tier}', cwd=ROOT, env=env)
+                    text = c.stdout.decode('utf-8', 'replace')
+                    open(os.path.join(out_dir, f'{p}-{tier}.log'), 'w').write(text)
+                    keys = re.findall(r'^\s+key: (.*)$', text, re.M)
+                    rec = {'id': sid, 'check': p, 'tier': tier, 'exit': c.returncode, 'violations': len(re.findall(r'^VIOLATION ', text, re.M)), 'keys': keys[:12],
+                           'inconclusive': re.findall(r'^INCONCLUSIVE: (.*)$', text, re.M)[:3], 'wall_s': round(time.time() - t0, 1), 'base': base, 'verif': verif,
+                           'where': 'scratch worktree' if scratch else '/repo'}
+                    open(results, 'a').write(json.dumps(rec) + '\n')
+                    verdict = {0: 'MISSED', 1: 'DETECTED', 2: 'INCONCLUSIVE'}.get(c.returncode, f'exit {c.returncode}')
+                    print(sid, p, verdict, rec['wall_s'], 's', keys[:3], rec['inconclusive'][:1], flush=True)
+            finally:
+                if not clean_repo(repo):
+                    print('REPO NOT CLEAN after', sid, flush=True)
+                    return
+    finally:
+        if scratch:
+            sh(f'git -C /repo worktree remove --force {scratch}')
+            sh(f'rm -rf {scratch}; git -C /repo worktree prune')
+
 
 if __name__ == '__main__':
     main()
